@@ -298,7 +298,7 @@ func C01(ctx *core.Ctx) {
 
 	// ---- R4/R5 Request implementations --------------------------------------
 	for _, req := range r.Impl("FTransport", "Request") {
-		c01Request(ctx, r, req)
+		c01Request(ctx, r, req, "C01.R4", "C01.R5")
 	}
 	// ---- R6 ------------------------------------------------------------------
 	c01NatsSubject(ctx, r)
@@ -391,7 +391,7 @@ func c01CheckSubjectID(ctx *core.Ctx, r *RT, h *ssa.Function, v ssa.Value, const
 		"op id = ParseUint(msg.Subject after the last '.')", "503 routing does not take the op id from the last token of the reply subject")
 }
 
-func c01Request(ctx *core.Ctx, r *RT, req *ssa.Function) {
+func c01Request(ctx *core.Ctx, r *RT, req *ssa.Function, R4, R5 string) {
 	rn := ssax.Name(req)
 	var regCalls, unregCalls []ssax.Call
 	for _, c := range ssax.Calls(req) {
@@ -406,13 +406,13 @@ func c01Request(ctx *core.Ctx, r *RT, req *ssa.Function) {
 	}
 	if len(regCalls) == 0 {
 		// no registry use: must not receive from any channel created here for results
-		ctx.Discharge("C01.R4", rn+" › no registry use", fnPos(r, req), "synchronous transport: no multiplexed result channel")
+		ctx.Discharge(R4, rn+" › no registry use", fnPos(r, req), "synchronous transport: no multiplexed result channel")
 		return
 	}
 	ctxParam := req.Params[1]
 	for _, rc := range regCalls {
 		args := rc.Args() // recv, ctx, ch
-		ctx.Check(ssax.Strip(args[1]) == ssa.Value(ctxParam), "C01.R4", rn+" › Register context", r.IPos(rc.Instr),
+		ctx.Check(ssax.Strip(args[1]) == ssa.Value(ctxParam), R4, rn+" › Register context", r.IPos(rc.Instr),
 			"registers the caller's FContext", "Register is called with a context other than the caller's")
 		ch, isMake := ssax.Strip(args[2]).(*ssa.MakeChan)
 		capOK := false
@@ -421,7 +421,7 @@ func c01Request(ctx *core.Ctx, r *RT, req *ssa.Function) {
 				capOK = true
 			}
 		}
-		ctx.Check(isMake && capOK, "C01.R4", rn+" › result channel is fresh and buffered", r.IPos(rc.Instr),
+		ctx.Check(isMake && capOK, R4, rn+" › result channel is fresh and buffered", r.IPos(rc.Instr),
 			"make(chan []byte, n≥1) in this call", "result channel is not a per-call make(chan, ≥1): shared or unbuffered")
 		if isMake {
 			// escape: the channel may only go to Register and be received from
@@ -447,14 +447,14 @@ func c01Request(ctx *core.Ctx, r *RT, req *ssa.Function) {
 					esc = u.String()
 				}
 			}
-			ctx.Check(esc == "", "C01.R4", rn+" › result channel private", r.IPos(ch),
+			ctx.Check(esc == "", R4, rn+" › result channel private", r.IPos(ch),
 				"channel flows only into Register and receive operations of this call", "result channel escapes: "+esc)
 			// results are received from this channel only: every recv whose value is returned as transport
 			for _, rs := range RecvSites(req) {
 				if et, ok := rs.Chan.Type().Underlying().(*types.Chan); ok {
 					if sl, ok := et.Elem().Underlying().(*types.Slice); ok {
 						if b, ok := sl.Elem().Underlying().(*types.Basic); ok && b.Kind() == types.Byte {
-							ctx.Check(ssax.Strip(rs.Chan) == ssa.Value(ch), "C01.R4", rn+" › result received from own channel", r.IPos(rs.Instr),
+							ctx.Check(ssax.Strip(rs.Chan) == ssa.Value(ch), R4, rn+" › result received from own channel", r.IPos(rs.Instr),
 								"frame bytes are received from the registered channel", "Request receives a frame from a channel other than the one it registered")
 						}
 					}
@@ -503,14 +503,17 @@ func c01Request(ctx *core.Ctx, r *RT, req *ssa.Function) {
 			}, isUnreg)
 		}
 		if bad == nil {
-			ctx.Discharge("C01.R4", rn+" › deferred Unregister(ctx) follows Register on every path", r.IPos(rc.Instr), "defer Unregister(same ctx) precedes every return/wait/spawn after a successful Register")
+			ctx.Discharge(R4, rn+" › deferred Unregister(ctx) follows Register on every path", r.IPos(rc.Instr), "defer Unregister(same ctx) precedes every return/wait/spawn after a successful Register")
 		} else {
-			ctx.Violate("C01.R4", rn+" › deferred Unregister(ctx) follows Register on every path", r.IPos(rc.Instr),
+			ctx.Violate(R4, rn+" › deferred Unregister(ctx) follows Register on every path", r.IPos(rc.Instr),
 				"a path after a successful Register reaches a return/wait/transmission without a deferred Unregister of the same context: the registration leaks and a late frame can be delivered to a later request reusing the id",
 				ssax.PathString(r.V.Fset, bad)...)
 		}
 		// R5: Register dominates transmissions
 		for _, c := range ssax.Calls(req) {
+			if R5 == "" {
+				break
+			}
 			isTx := false
 			desc := ""
 			if _, ok := c.Instr.(*ssa.Go); ok {
@@ -522,7 +525,7 @@ func c01Request(ctx *core.Ctx, r *RT, req *ssa.Function) {
 			if !isTx {
 				continue
 			}
-			ctx.Check(ssax.Dominates(rc.Instr.(ssa.Instruction), c.Instr.(ssa.Instruction)), "C01.R5", rn+" › Register before "+desc, r.IPos(c.Instr),
+			ctx.Check(ssax.Dominates(rc.Instr.(ssa.Instruction), c.Instr.(ssa.Instruction)), R5, rn+" › Register before "+desc, r.IPos(c.Instr),
 				"Register dominates the transmission", "the request can be transmitted before its result channel is registered: a fast reply is dropped as unknown")
 		}
 	}
